@@ -112,7 +112,7 @@ def ref_rpsi(d):
     pb = d[0]
     if pb // 8 + 2 > len(d): return None
     total = 8 * (len(d) - 2)
-    return d[1] & 0x7f, bits_of(d[2:])[:total - pb]
+    return d[1] & 0x7f, bits_of(d[2:])[:max(0, total - pb)]
 
 
 # ------------------------------------------------------------------------------------------------
@@ -366,7 +366,14 @@ def oracle_C07(ctx, i):
 def oracle_C16(ctx, i):
     I, meta = ctx.I[i], ctx.metas[i]
     if meta.get("op") not in ("build", "size"): return []
-    s = I.get("size", "")
+    s = I.get("size")
+    if s is None:
+        # stand-alone chunk / item builders have no calculate_size of their own in the protocol:
+        # the outcome of write_into tells (an error other than OutputTooSmall is the size error)
+        rs = [I[k] for k in sorted(I) if k.startswith("w") and k.endswith(".res")]
+        if not rs: return []
+        errs = [x for x in rs if x.startswith("err:") and not x.startswith("err:OutputTooSmall")]
+        s = errs[0] if errs else "ok:0"
     v = gen.violations(meta["cfg"])
     if s.startswith("ok:"):
         return [f"configuration violates {v[0]} but size calculation accepted it ({s})"] if v else []
@@ -577,8 +584,13 @@ def oracle_C09(ctx, i):
                 k = V.get("variant", "unknown")
             if k in ("sr", "rr", "rb", "app", "bye", "tfb", "pfb", "unknown"):
                 c09_view(V, k, b, out, p)
-        if p == "" and meta.get("wf") is not None and r != "ok" and kind_name(kind) in ("sr", "rr", "rb", "app", "bye", "tfb", "pfb", "unknown", "packet"):
-            out.append(f"well-formed packet from the reference encoder rejected: {r}")
+        wf = meta.get("wf")
+        if p == "" and wf is not None and r != "ok" and kind_name(kind) in ("sr", "rr", "rb", "app", "bye", "tfb", "pfb", "unknown", "packet"):
+            # a raw packet from the unknown builder carrying a known type number is not a
+            # well-formed packet of that type
+            raw_known = wf.get("k") == "unknown" and wf.get("type") in PT_KIND and kind_name(kind) == "packet"
+            if not raw_known and wf.get("k") != "sdes":
+                out.append(f"well-formed packet from the reference encoder rejected: {r}")
     return out
 
 
@@ -780,6 +792,8 @@ def oracle_C13(ctx, i):
     if I.get("b.padding") not in (str(n), None):
         out.append(f"padding()={I.get('b.padding')} expected {n}")
     A, Bv = pfx(I, "a."), pfx(I, "b.")
+    if meta["kind"] == "unknown" or A.get("variant") == "unknown":
+        return out       # an unknown packet has no content accessor: data() is the whole packet
     for k, v in A.items():
         if k in CONTENT_SKIP or k.startswith(("typed.", "conv.", "conv_same.", "as.")): continue
         if Bv.get(k) != v:
@@ -825,15 +839,25 @@ def oracle_C14(ctx, i):
                 out.append("bytes are not the concatenation of the members' images")
             break
     leaves = gen.flatten(cfg)
+    comp = meta.get("leaf_reqs")
     if leaves:
         if I.get("rt.res") != "ok":
             out.append(f"bytes of a non-empty compound do not parse as a compound: {I.get('rt.res')}")
-        else:
-            if I.get("rt.n") != str(len(leaves)): out.append(f"parsing back yields {I.get('rt.n')} packets for {len(leaves)} members")
-            for j, m in enumerate(leaves):
-                if I.get(f"rt.p{j}.res") != "ok": out.append(f"member {j} parses back as {I.get(f'rt.p{j}.res')}"); continue
-                if I.get(f"rt.p{j}.variant") != variant_of(m): out.append(f"member {j} parses back as {I.get(f'rt.p{j}.variant')}, expected {variant_of(m)}")
-                if I.get(f"rt.p{j}.length") != str(len(gen.encode(m))): out.append(f"member {j} parses back with length {I.get(f'rt.p{j}.length')}")
+        elif comp:
+            # each item must equal the member parsed on its own (Packet::parse of the member's image),
+            # iteration ending with the first member that does not parse
+            alone = [ctx.I[c] for c in comp]
+            exp = []
+            for T in alone:
+                exp.append(T)
+                if T.get("res") != "ok": break
+            if I.get("rt.n") != str(len(exp)): out.append(f"parsing back yields {I.get('rt.n')} packets, expected {len(exp)} ({len(leaves)} members)")
+            for j, T in enumerate(exp):
+                if I.get(f"rt.p{j}.res") != T.get("res"):
+                    out.append(f"member {j} parses back as {I.get(f'rt.p{j}.res')} but as {T.get('res')} on its own"); continue
+                for key in ("variant", "version", "type", "count", "length", "padding", "ssrc", "ssrcs", "n_reports", "chunks", "sender_ssrc", "media_ssrc", "name"):
+                    if T.get(key) != I.get(f"rt.p{j}.{key}"):
+                        out.append(f"member {j}: {key}={I.get(f'rt.p{j}.{key}')} in the compound, {T.get(key)} on its own")
     return out
 
 
@@ -914,8 +938,9 @@ def oracle_C19(ctx, i):
         if ok and mn + padlen(b) <= len(b) and r != "ok": out.append(f"well-framed custom packet rejected: {r}")
         if r == "ok":
             if "body" in I: chk_slice(I["body"], b, 4, b[4:len(b) - padlen(b)], out, "body")
-            if I.get("via_packet") not in ("ok", None): out.append(f"via Packet::parse + try_as: {I.get('via_packet')}")
-        if I.get("via_packet_same") == "false": out.append("conversion through the generic packet differs from the direct parse")
+            if pt not in PT_KIND and I.get("via_packet") not in ("ok", None): out.append(f"via Packet::parse + try_as: {I.get('via_packet')}")
+        # a third-party type re-using a type number the crate knows is dispatched to the crate's own parser
+        if r == "ok" and pt not in PT_KIND and I.get("via_packet_same") == "false": out.append("conversion through the generic packet differs from the direct parse")
         return out
     if op != "build": return out
     cfg = leaf(meta["cfg"])
@@ -930,6 +955,8 @@ def oracle_C19(ctx, i):
                 out.append(f"written {got[:16].hex()}.. but header/payload/trailer should be {want[:16].hex()}..")
             break
     pt = cfg["type"] if cfg["k"] == "unknown" else cfg["pt"]
+    if pt in PT_KIND:
+        return out       # a type number the crate knows is parsed by the crate's own typed parser
     if I.get("rt.res") != "ok":
         out.append(f"the written packet is rejected when parsed back: {I.get('rt.res')}")
     elif cfg["k"] == "unknown":
@@ -944,7 +971,7 @@ def oracle_C19(ctx, i):
             wb = cfg["body"] + bytes(max(0, cfg["min"] - 4 - len(cfg["body"])))
             if got != wb: out.append(f"custom body {got.hex()[:40]} expected {wb.hex()[:40]}")
         if I.get("rt.padding") != pad_str(cfg["padding"]): out.append(f"custom padding {I.get('rt.padding')}")
-        if I.get("rt.via_packet") not in ("ok", None): out.append(f"custom via generic packet: {I.get('rt.via_packet')}")
+        if pt not in PT_KIND and I.get("rt.via_packet") not in ("ok", None): out.append(f"custom via generic packet: {I.get('rt.via_packet')}")
     return out
 
 
